@@ -79,6 +79,9 @@ def instances():
                             short=(n not in ("hex", "str")),
                             known=("verif_known(KF_HEX_WIDTH_OVERFLOW_UB, VX_NARGS > 1 && !A[1].isnull && A[1].i > LONG_MAX - 16)" if n == "hex" else
                                    "verif_known(KF_GENERIC_BUILTIN_TRIAGE, false)")))
+    # isnum / num on strings long enough to hold a decimal outside the binary64 range ("1e999")
+    for n, c in (("isnum", "ISNUM"), ("num", "NUM")):
+        out.append(nary(n, c + "Expression", "blocc/builtin/builtin_%s.h" % n, "s", ["C10", "C01", "C05"], tus=B(n), slen=5, unwind=8, tier="quick" if n == "isnum" else "thorough", timeout=600, idsuffix=".s5"))
     # member methods (receiver = argument 0)
     P09 = ["C09", "C01", "C02", "C05"]
     TSTUBS = FMT_STUBS + CTX_STUBS + CONTAINER_STUBS[3:]          # tables are real here: Collection not cut
